@@ -16,6 +16,14 @@ SAN := -fsanitize=address,undefined -fno-sanitize=enum -fno-sanitize-recover=und
 CXXFLAGS := -std=c++14 -O1 -g1 $(SAN) -w
 LDFLAGS := $(SAN)
 endif
+ifeq ($(BUILD),asancov)
+# asan + gcc trace-pc: deterministic basic-block counter (step budget) for the wire engine
+CXX := g++
+SAN := -fsanitize=address,undefined -fno-sanitize=enum -fno-sanitize-recover=undefined -fno-omit-frame-pointer
+CXXFLAGS := -std=c++14 -O1 -g1 $(SAN) -fsanitize-coverage=trace-pc -w
+ENGCXXFLAGS := -std=c++14 -O1 -g1 $(SAN) -w
+LDFLAGS := $(SAN)
+endif
 ifeq ($(BUILD),sancov)
 CXX := clang++
 CXXFLAGS := -std=c++14 -O1 -g1 -gdwarf-4 -fsanitize-coverage=trace-pc-guard,trace-loads,trace-stores -w
@@ -30,7 +38,8 @@ LDFLAGS :=
 endif
 LIBS := -lpcap -lcrypto -lpthread -ldl
 
-ENGINES_asan := tcp frag sock disk own wire wlan
+ENGINES_asan := tcp frag sock disk own wlan
+ENGINES_asancov := wire
 ENGINES_sancov := thr
 ENGINES_plain := tcp frag wire wlan
 ENGINES ?= $(ENGINES_$(BUILD))
@@ -59,6 +68,7 @@ engine-%: $(B)/%
 setup:
 	$(MAKE) -C $(V) BUILD=asan lib -j16
 	for e in $(ENGINES_asan); do if [ -f $(V)/engines/$$e.cpp ]; then $(MAKE) -C $(V) BUILD=asan engine-$$e || exit 1; fi; done
+	if [ -f $(V)/engines/wire.cpp ]; then $(MAKE) -C $(V) BUILD=asancov lib -j16 && $(MAKE) -C $(V) BUILD=asancov engine-wire; fi
 	if [ -f $(V)/engines/thr.cpp ]; then $(MAKE) -C $(V) BUILD=sancov lib -j16 && $(MAKE) -C $(V) BUILD=sancov engine-thr; fi
 
 clean:
